@@ -55,9 +55,25 @@ def leaf_winner_table(repo, run, rule):
     fi = repo.func('ConfigNode.ayns.on_merge_impl')
     bad = []
     rows = 0
-    for a in PRIOS:
+    # the decision may depend on the two priorities only: a tie-break computed from the operands makes "latest among equals"
+    # depend on node content
+    from . import tr
+    for p in tr.paths_of(repo, fi, no_inline=set(mt.NI), follow_exceptions=False):
+        for e in p.events:
+            if e.kind == 'call' and e.attr == 'has_priority_over':
+                ie = e.kw.get('if_equal') or (e.args[1] if len(e.args) > 1 else None)
+                if ie is not None and ie.const not in (True, False):
+                    run.violation(rule, tr.where(fi, e), 'leaf merge: ' + e.callee[:60], 'on equal priorities the winner depends on %s, not only on which node is newer (e.g. an overriding value that compares equal but has another type is dropped)' % ie.text[:60])
+                    return
+    # the leaf rule is evaluated for plain nodes and for scalar nodes holding equal / different values (hooks that a leaf class
+    # overrides are resolved through the class of the operands)
+    kinds = [('ConfigNode', {}, {})]
+    if 'ConfigScalar' in repo.classes:
+        kinds += [('ConfigScalar', {'_value': 1}, {'_value': 1}), ('ConfigScalar', {'_value': 1}, {'_value': True})]
+    for cls_, fa, fb in kinds:
+      for a in PRIOS:
         for b in PRIOS:
-            me, ot = node_obj('self', _priority=a), node_obj('other', _priority=b)
+            me, ot = node_obj('self', cls_, _priority=a, **fa), node_obj('other', cls_, _priority=b, **fb)
             f = FDE(repo, stubs={'_replace_self', '_replace_other'})
             r = fde_guard(lambda: f.call(fi, me, ot and 'p', ot) if False else f.call(fi, me, 'p', ot))
             rows += 1
